@@ -39,6 +39,7 @@ func runC01(c *Ctx) {
 	checkN10(c)
 	r.Rule("N9", "`,` hands on every result of both operands", 2)
 	ruleNoFilter(c, "N9", "unionOperator", map[string]bool{"PushBack": true}, nil, "a result of one operand of `,` is dropped because of what it is (its key, its parent …): `a, b` is no longer the results of a followed by the results of b")
+	ruleN11(c, "N11")
 }
 
 // checkN7: an operator appends to and removes from lists it made itself (or
